@@ -314,7 +314,7 @@ class Entity(Block):
                     root_type = value._root.type
 
                     if issubclass(root_type, Array):
-                        root_type = root_type.elemtype()
+                        root_type = root_type._elemtype_
 
                     for vector_type in (Signed, Unsigned):
                         assert issubclass(root_type, vector_type) == issubclass(
